@@ -289,6 +289,17 @@ func (fe *FnEnc) unknownCall(what string, args []Val, rt types.Type) Val {
 	for _, a := range args {
 		fe.havocReachable(a)
 	}
+	// ghost state carried by an argument (declared "via" its type) may change too
+	for _, gn := range sortedKeys(fe.g.db.GhostVia) {
+		via := fe.g.db.GhostVia[gn]
+		for _, a := range args {
+			if a.T != nil && types.TypeString(a.T, nil) == via {
+				fe.mem.ghost[gn] = fe.s.fresh("hg", fe.g.ghostSort(gn))
+				fe.recordMod([]string{"ghost:" + gn})
+				break
+			}
+		}
+	}
 	if rt == nil {
 		return Val{}
 	}
@@ -783,9 +794,11 @@ func (fe *FnEnc) useContractFn(ct *Contract, callee *ssa.Function, args []Val, r
 	}
 	// havoc assigns
 	fe.mem = pre.clone()
+	fe.curArgs = args
 	for _, as := range ct.Assigns {
 		fe.havocLvalue(ev, as)
 	}
+	fe.curArgs = nil
 	// closures handed to the callee may be invoked any number of times: the captured variables they
 	// assign are havocked; a closure body with effects this analysis cannot bound havocs everything
 	cloArg := false
@@ -874,6 +887,14 @@ func (fe *FnEnc) useContractFn(ct *Contract, callee *ssa.Function, args []Val, r
 // havocLvalue havocs the location(s) denoted by an assigns clause.
 func (fe *FnEnc) havocLvalue(ev *Eval, cl Clause) {
 	s := fe.s
+	if n, ok := cl.E.(*EName); ok && n.Name == "anything" {
+		// assigns anything: every heap object and every slice/map the caller passes may change; ghost state may not
+		fe.havocAll("assigns anything")
+		for _, a := range fe.curArgs {
+			fe.havocReachable(a)
+		}
+		return
+	}
 	switch x := cl.E.(type) {
 	case *ECall:
 		if x.Fn == "ghost" {
